@@ -25,12 +25,32 @@ FORBIDDEN = re.compile(r"\b(sorry|admit|native_decide|bv_decide|implemented_by|u
 class Case:
     """One correspondence case: one or more op lines run in order on a fresh or
     reset state.  tags: free-form dict used for distribution statistics."""
-    __slots__ = ("lines", "tags", "h", "m", "s")
+    __slots__ = ("lines", "tags", "h", "m", "s", "tr")
 
     def __init__(self, lines, **tags):
         self.lines = [lines] if isinstance(lines, str) else list(lines)
         self.tags = tags
-        self.h = self.m = self.s = None
+        self.h = self.m = self.s = self.tr = None
+
+    def split_transcripts(self):
+        """harness output = '<result> ##<oracle transcript>'; the transcript (regexec answers,
+        RAND_bytes values) is handed to the model, never compared"""
+        if self.tr is not None or self.h is None:
+            return
+        self.tr = []
+        hs = []
+        for o in self.h:
+            if " ##" in o:
+                a, b = o.split(" ##", 1)
+                hs.append(a)
+                self.tr.append(b.strip())
+            else:
+                hs.append(o)
+                self.tr.append("")
+        self.h = hs
+
+    def mline(self, i):
+        return self.lines[i] + (" ## " + self.tr[i] if self.tr and self.tr[i] else "")
 
     def key(self):
         return hashlib.sha1("\n".join(self.lines).encode()).hexdigest()
@@ -135,7 +155,7 @@ def run_driver_model(cases, jobs=16):
     chunks = [cases[i::n] for i in range(n)]
 
     def work(ch):
-        outs = _run_driver_lines(["M " + l for c in ch for l in c.lines])
+        outs = _run_driver_lines(["M " + c.mline(i) for c in ch for i in range(len(c.lines))])
         k = 0
         for c in ch:
             c.m = outs[k:k + len(c.lines)]
@@ -154,8 +174,8 @@ def run_driver_spec(cases, jobs=16):
     def work(ch):
         lines = []
         for c in ch:
-            for l, h in zip(c.lines, c.h):
-                lines.append(f"S {l} => {h}")
+            for i, h in enumerate(c.h):
+                lines.append(f"S {c.mline(i)} => {h}")
         outs = _run_driver_lines(lines)
         k = 0
         for c in ch:
@@ -328,7 +348,11 @@ def main():
         cases = [Case(c["lines"]) for c in rp.get("cases", [])]
     else:
         cases = _corpus(prop) + mod.gen(rng, args.tier)
-    run_harness(exe, cases)
+    run_harness(exe, [c for c in cases if c.h is None])
+    if hasattr(mod, "gen_run") and not args.replay:
+        cases += mod.gen_run(exe, rng, args.tier)
+    for c in cases:
+        c.split_transcripts()
     run_driver_model(cases)
     run_driver_spec(cases)
 
